@@ -18,17 +18,17 @@ import (
 // faults, restarts from the store under every query order, and changes announced by
 // another node (property C12).
 type PersistSystem struct {
-	Geo   Geometry
-	Mode  allocator.PoolMode
-	Grace int
-	NSubs int
+	Geo    Geometry
+	Mode   allocator.PoolMode
+	Grace  int
+	NSubs  int
 	events []core.Event
 }
 
 func NewPersistSystem(g Geometry, mode allocator.PoolMode, grace, nsubs int) *PersistSystem {
 	s := &PersistSystem{Geo: g, Mode: mode, Grace: grace, NSubs: nsubs}
 	for sub := 1; sub <= nsubs; sub++ {
-		for _, o := range []string{"alloc", "release", "allocf", "releasef"} {
+		for _, o := range []string{"alloc", "release", "allocf", "releasef", "allocm", "allocmf"} {
 			s.events = append(s.events, core.Event{"op": o, "sub": sub, "arg": -1})
 		}
 		if mode == allocator.PoolModeLease {
@@ -117,6 +117,14 @@ func (p *persistInst) Apply(ev core.Event) map[string]any {
 			return res(false, -1, err, op == "allocf")
 		}
 		return res(true, g.UnitOfNet(pf), nil, op == "allocf")
+	case "allocm", "allocmf": // AllocateWithMAC: its own copy of the allocate / persist / roll back sequence
+		p.st.FailPut = op == "allocmf"
+		pf, err := p.da.AllocateWithMAC(bg, id, net.HardwareAddr{2, 0, 0, 0, 0, byte(sub)})
+		p.st.FailPut = false
+		if err != nil {
+			return res(false, -1, err, op == "allocmf")
+		}
+		return res(true, g.UnitOfNet(pf), nil, op == "allocmf")
 	case "release", "releasef":
 		p.st.FailDel = op == "releasef"
 		err := p.da.Release(bg, id)
@@ -187,6 +195,7 @@ func (p *persistInst) Observe() map[string]any {
 func (p *persistInst) Fingerprint() string {
 	return core.Fingerprint(p.da, fpOpt) + "##" + core.Fingerprint(p.st.Canon(), nil)
 }
+
 // Probe drains the pool with fresh subscribers (as in PoolSystem).
 func (p *persistInst) Probe() map[string]any {
 	n := 0
@@ -205,4 +214,4 @@ func (p *persistInst) Probe() map[string]any {
 	}
 	return map[string]any{"drain": n}
 }
-func (p *persistInst) Close()                 { p.cancel() }
+func (p *persistInst) Close() { p.cancel() }
